@@ -46,8 +46,13 @@ fn supported_ticks(seed: u64, acc: &mut Acc) {
         if (got_full.0 as i64, got_full.1 as i64) != (-upper_full, upper_full) {
             acc.violation("tick:full_range_indexes".to_string(), format!("full_range_indexes({s}) = {:?}, the aligned ticks inside the range are ({}, {upper_full})", got_full, -upper_full), json!({"spacing": s}));
         }
+        // ... and the far ends of the argument type (a client may pass any i32)
+        for t in [i32::MIN as i64, i32::MIN as i64 + 1, i32::MIN as i64 + si, -(1i64 << 30), 1i64 << 30, i32::MAX as i64 - si, i32::MAX as i64 - 1, i32::MAX as i64] {
+            ts.push(t);
+            ts.push(t.div_euclid(si) * si);
+        }
         for t in ts {
-            if t < i32::MIN as i64 / 2 || t > i32::MAX as i64 / 2 {
+            if t < i32::MIN as i64 || t > i32::MAX as i64 {
                 continue;
             }
             let ti = t as i32;
@@ -69,7 +74,8 @@ fn supported_ticks(seed: u64, acc: &mut Acc) {
             }
             // a tick array starts at a multiple of 88 x spacing; the only start below the range is the array that contains MIN
             let start_ok = t.rem_euclid(tia) == 0 && t <= MAX_TICK_INDEX as i64 && t + tia > MIN_TICK_INDEX as i64;
-            if Tick::check_is_valid_start_tick(ti, s) != start_ok {
+            let got_start = crate::svm::quiet_catch(|| Tick::check_is_valid_start_tick(ti, s));
+            if got_start.as_ref().ok().copied() != Some(start_ok) && !(got_start.is_err() && !start_ok && !inb) {
                 acc.violation("tick:valid_start_tick".to_string(), format!("check_is_valid_start_tick({ti}, spacing {s}) = {} (multiple of {tia}: {}; array reaches into the range: {})", !start_ok, t.rem_euclid(tia) == 0, t <= MAX_TICK_INDEX as i64 && t + tia > MIN_TICK_INDEX as i64), json!({"tick": ti, "spacing": s}));
             }
         }
